@@ -14,7 +14,8 @@ if os.path.exists(gen):
             print("setup: translator failed on %s (rc=%d) - the checks will report it" % (os.path.basename(uf), rc))
 # 2. full Coq build
 vcheck.coq_makefile()
-rc, out = vcheck.sh(["make", "-k", "-j%d" % vcheck.NCPU], cwd=vcheck.COQ, timeout=7200)
+rc, out = vcheck.sh(["make", "-k", "-j%d" % vcheck.NCPU, "COQC=timeout %s coqc" % os.environ.get("COQC_TIMEOUT", "1200")],
+                    cwd=vcheck.COQ, timeout=3300)
 print(out[-3000:])
 print("setup: coq make rc=%d (%.0fs)" % (rc, time.time() - t0))
 # 3. hooked libcds
